@@ -791,3 +791,127 @@ def rule_option_filter(text):
                         "(match %s { Some(__f) => if %s { Some(__f) } else { None }, None => None })" % (recv, cond))
         return None
     return rewrite(text, finder)
+
+
+# ---------------------------------------------------------------- R13 rule H: synchronous thread hand-off
+def rule_thread_handoff(text):
+    """rule H.  The blocking timeout variants run their operation on a helper thread and wait for its result:
+
+        let (TX, RX) = std::sync::mpsc::channel();
+        std::thread::spawn(move || { BODY });        // BODY ends by sending on TX
+        RX.recv()...                                  // the tail of the function
+
+    The caller does nothing between spawning the helper and blocking in `RX.recv()`, and `recv` returns only after the helper
+    has sent (or died), so every effect of BODY is ordered before the caller's return and nothing of the caller runs
+    concurrently with it: the hand-off is sequential.  The closure body is therefore read where it is written, bracketed by
+    `vx_thread_enter(w)` / `vx_thread_exit(__t, w)` (a fresh OS thread: no ambient runtime, no task-local actor identity),
+    and the std channel becomes the one-shot slot of the shim (`vx_std_channel`, send consumes the sender).
+    Anything else - the JoinHandle kept, a non-`move` closure, `return` / `?` at closure level, statements between the spawn
+    and the `recv`, the sender used outside the closure - is outside the rule (undecided)."""
+    if "thread" not in text:
+        return text
+    c = Code(text)
+    k = c.find_seq(0, "std", "::", "thread", "::", "spawn", "(")
+    if k < 0:
+        k2 = c.find_seq(0, "thread", "::", "spawn", "(")
+        if k2 >= 0:
+            raise Unsupported("thread::spawn not spelled std::thread::spawn: outside rule H")
+        return text
+    if c.find_seq(k + 1, "std", "::", "thread", "::", "spawn", "(") >= 0:
+        raise Unsupported("more than one helper thread: outside rule H")
+    op = k + 5
+    cl = c.close(op)
+    if c.t(k - 1) not in (";", "{", "}") or c.t(cl + 1) != ";":
+        raise Unsupported("the helper thread's JoinHandle is used: outside rule H")
+    if not (c.seq(op + 1, "move", "||", "{") or c.seq(op + 1, "move", "|", "|", "{")):
+        raise Unsupported("helper thread closure is not `move || { .. }`: outside rule H")
+    bo = op + 1
+    while c.t(bo) != "{": bo += 1
+    bc = c.close(bo)
+    if bc != cl - 1:
+        raise Unsupported("helper thread closure has something after its block: outside rule H")
+    # the channel: let (TX, RX) = std::sync::mpsc::channel();
+    ch = c.find_seq(0, "std", "::", "sync", "::", "mpsc", "::", "channel", "(", ")")
+    if ch < 0 or ch > k or not (c.t(ch - 1) == "=" and c.t(ch - 2) == ")" and c.t(ch - 4) == "," and c.t(ch - 6) == "(" and c.t(ch - 7) == "let"):
+        raise Unsupported("helper thread without `let (tx, rx) = std::sync::mpsc::channel();` before it: outside rule H")
+    if c.find_seq(ch + 1, "std", "::", "sync", "::", "mpsc", "::", "channel") >= 0:
+        raise Unsupported("more than one std channel: outside rule H")
+    tx, rx = c.t(ch - 5), c.t(ch - 3)
+    # closure level: no return, no `?` outside nested async blocks / closures
+    j = bo + 1
+    sends = 0
+    while j < bc:
+        x = c.t(j)
+        if x == "async":
+            m = j + 1
+            if c.t(m) == "move": m += 1
+            if c.t(m) == "{":
+                j = c.close(m) + 1; continue
+        if x == "return" or (x == "?" and c.kind(j) == "p"):
+            raise Unsupported("`return` / `?` at the level of the helper thread's closure: outside rule H")
+        if x in ("|", "||") and c.t(j - 1) in ("(", ",", "=", "move"):
+            pass
+        if x == tx and c.seq(j + 1, ".", "send", "("):
+            sends += 1
+        j += 1
+    # the sender lives in the closure only; the receiver is used exactly once, right after the spawn, as `RX.recv()`
+    for j in range(len(c)):
+        if c.t(j) == tx and c.kind(j) == "id" and not (bo < j < bc) and j != ch - 5:
+            raise Unsupported("the hand-off sender is used outside the helper thread: outside rule H")
+        if c.t(j) == rx and c.kind(j) == "id" and j != ch - 3 and j != cl + 2:
+            raise Unsupported("the hand-off receiver is used other than as the statement right after the spawn: outside rule H")
+    if not c.seq(cl + 2, rx, ".", "recv", "(", ")"):
+        raise Unsupported("the statement after the helper thread's spawn is not `%s.recv()`: outside rule H" % rx)
+    body = c.text[c.end(bo):c.pos(bc)]
+    edits = [
+        (c.pos(ch), c.end(ch + 8), "vx_std_channel()"),
+        (c.pos(k), c.end(cl + 1),
+         "let __vx_thread = vx_thread_enter(w);\n        {" + body + "}\n        vx_thread_exit(__vx_thread, w);"),
+    ]
+    return apply_edits(text, edits)
+
+
+def rule_async_block_try(text):
+    """`?` inside an `async { .. }` block leaves the BLOCK, not the function.  R4 erases the block's `async`, so such a `?`
+    would change meaning.  The one form that is kept is a `?` in tail position of the async block,
+        async { .. ; X? }   ==   async { .. ; match X { Ok(v) => v, Err(e) => Err(e) } }
+    (the block's value is the `Ok` payload, an `Err` becomes the block's value; `From` is the identity because the rewritten text
+    only type-checks when both error types are the same).  Any other `?` in an async block is outside the rules."""
+    def finder(c):
+        for k in range(len(c)):
+            if c.t(k) != "async" or c.kind(k) != "id":
+                continue
+            m = k + 1
+            if c.t(m) == "move": m += 1
+            if c.t(m) != "{":
+                continue
+            cl = c.close(m)
+            qs = []
+            j = m + 1
+            while j < cl:
+                x = c.t(j)
+                if x == "async" and c.t(j + 1) in ("{", "move") and any(c.t(q) == "?" for q in range(j, cl)):
+                    raise Unsupported("nested async blocks with `?`: outside the rules")
+                if x == "?" and c.kind(j) == "p":
+                    qs.append(j)
+                j += 1
+            if not qs:
+                continue
+            if len(qs) != 1 or qs[0] != cl - 1:
+                raise Unsupported("`?` inside an async block that is not its tail expression: outside the rules")
+            q = qs[0]
+            # start of the tail expression: after the last `;` / `}`-terminated statement at block level
+            s = m + 1
+            j = m + 1
+            while j < q:
+                x = c.t(j)
+                if c.kind(j) == "p" and x in OPEN:
+                    j = c.close(j) + 1
+                    continue
+                if x == ";":
+                    s = j + 1
+                j += 1
+            expr = c.text[c.pos(s):c.pos(q)].strip()
+            return (c.pos(s), c.end(q), "(match %s { Ok(__bv) => __bv, Err(__be) => Err(__be) })" % expr)
+        return None
+    return rewrite(text, finder)
